@@ -160,6 +160,29 @@ func picTimingHevcString(m sei.SEIMessage) string {
 	return hexList(f) + ";" + hexList(pt.NumNalusInDuMinus1) + ";" + hexList(pt.DuCpbRemovalDelayIncrementMinus1)
 }
 
+// projections of the parsed AVC structures compared with the Gallina model by `corr` (hex, comma separated)
+func spsString(s *avc.SPS) string {
+	if s == nil {
+		return ""
+	}
+	return fmt.Sprintf("%x,%x,%x,%x,%x,%x", s.ParameterID, s.Width, s.Height, s.NrBytesRead, len(s.RefFramesInPicOrderCntCycle), len(s.SeqScalingLists))
+}
+
+func ppsString(p *avc.PPS) string {
+	if p == nil {
+		return ""
+	}
+	return fmt.Sprintf("%x,%x,%x,%x,%x,%x,%x", p.PicParameterSetID, p.SeqParameterSetID, p.NumSliceGroupsMinus1, len(p.SliceGroupID),
+		len(p.RunLengthMinus1), p.NumRefIdxI0DefaultActiveMinus1, len(p.PicScalingLists))
+}
+
+func sliceString(h *avc.SliceHeader) string {
+	if h == nil {
+		return ""
+	}
+	return fmt.Sprintf("%x,%x,%x,%x,%x,%x", uint64(h.SliceType), h.FrameNum, h.Size, h.NumRefIdxL0ActiveMinus1, h.NumRefIdxL1ActiveMinus1, h.PicParamID)
+}
+
 func bitOf(arg, k int) bool { return arg>>uint(k)&1 == 1 }
 
 func init() {
@@ -202,12 +225,12 @@ func init() {
 				sink = []interface{}{s.CpbDpbDelaysPresent(), s.PicStructPresent(), s.ChromaArrayType(), s.ConstraintFlags(),
 					avc.CodecString("avc1", s)}
 			}
-			return errClass(err), nil
+			return errClass(err), func() string { return spsString(s) }
 		}},
 		target{"avc.ParsePPSNALUnit", false, func(in []byte, arg int) (string, func() string) {
 			p, err := avc.ParsePPSNALUnit(in, contextSets().avcSPS)
 			sink = p
-			return errClass(err), nil
+			return errClass(err), func() string { return ppsString(p) }
 		}},
 		target{"avc.GetSliceTypeFromNALU", false, func(in []byte, arg int) (string, func() string) {
 			t, err := avc.GetSliceTypeFromNALU(in)
@@ -220,7 +243,7 @@ func init() {
 			c := contextSets()
 			h, err := avc.ParseSliceHeader(in, c.avcSPS, c.avcPPS)
 			sink = h
-			return errClass(err), nil
+			return errClass(err), func() string { return sliceString(h) }
 		}},
 		target{"avc.ParseSEINalu", false, func(in []byte, arg int) (string, func() string) {
 			c := contextSets()
@@ -262,7 +285,7 @@ func init() {
 			}
 			h, err := avc.ParseSliceHeader(rest, spsMap, ppsMap)
 			sink = h
-			return errClass(err), nil
+			return errClass(err), func() string { return sliceString(h) }
 		}},
 		target{"hevc.ParsePSAndSlice", false, func(in []byte, arg int) (string, func() string) {
 			c := contextSets()
